@@ -904,7 +904,8 @@ impl<'a> Searcher<'a> {
     ) -> Variant {
         let column_expr_str = column_expr.to_string();
 
-        if file_map.contains_key(&column_expr_str) {
+        // a literal is its own value: its text may well spell the key of a column (`'Name'`, `'Size'`)
+        if column_expr.val.is_none() && file_map.contains_key(&column_expr_str) {
             return Variant::from_string(&file_map[&column_expr_str]);
         }
         
